@@ -124,15 +124,15 @@ def run(ctx):
 
     # ---- (b) the queue: traces of the real PrivateBroadcast validated by TLC
     if only != "net":
-        for maxtx, maxatt, cfg, episodes in ((2, 2, "Trace_PB.cfg", 150 if quick else 1500), (3, 3, "Trace_PB3.cfg", 100 if quick else 1000)):
+        for maxtx, maxatt, cfg, episodes in ((2, 2, "Trace_PB.cfg", 100 if quick else 1500), (3, 3, "Trace_PB3.cfg", 60 if quick else 1000)):
             trace = ctx.run_driver(binary, "drive", args=[ctx.seed, episodes, maxtx, maxatt], out_name=os.path.join(ctx.work, "pb_%d_%d.trace.ndjson" % (maxtx, maxatt)))
             lines = open(trace).read().splitlines()
             nreset = sum(1 for l in lines if '"e":"reset"' in l)
             counts = collections.Counter(json.loads(l)["e"] for l in lines)
             full = sum(1 for l in lines if '"res":"QueueFull"' in l)
-            if not full or not counts["pick"] or not counts["confirm"] or not counts["stale"]:
-                raise vflib.InfraError("vacuity: driver never hit QueueFull / pick / confirm / stale: %s" % dict(counts))
             acc, matched, res = ctx.validate_trace("TxPrivacy", "TracePrivBroadcast", cfg, trace, name="trace_%d_%d" % (maxtx, maxatt))
+            if acc and (not full or not counts["pick"] or not counts["confirm"] or not counts["stale"]):
+                raise vflib.InfraError("vacuity: driver never hit QueueFull / pick / confirm / stale: %s" % dict(counts))
             ctx.traces += nreset; ctx.evaluations += len(lines)
             ctx.extra.setdefault("queue_trace_events", {})["max%d_att%d" % (maxtx, maxatt)] = dict(counts)
             for l in lines[5:400:97]:
@@ -150,16 +150,18 @@ def run(ctx):
         for name in ("e1", "e1pb"):
             r = jobs[name].result()
             g = vflib.Graph(vflib.load_emitted(r.emit_path))
-            tests = list(g.edge_tests())
+            # the deeper private-broadcast graph is replayed along a path cover in the quick tier (every peer costs several bloom filters)
+            tests = list(g.path_cover()) if (quick and name == "e1pb") else list(g.edge_tests())
             for t in tests:
-                per_action[t["steps"][-1]["a"][0]] += 1
+                for s_ in t["steps"]:
+                    per_action[s_["a"][0]] += 1
                 if any(s["a"][0] in ("getdata", "pbgetdata") for s in t["steps"]) and len(t["steps"]) >= 3:
                     ctx.nontrivial.add(vflib.digest([s["a"] for s in t["steps"]]))
             ctx.log("%s: %d states, %d transitions" % (name, len(g.nodes), g.nedges))
             ctx.sample(dict(actions=[s["a"] for s in tests[len(tests) * 2 // 3]["steps"]], results=[s["r"] for s in tests[len(tests) * 2 // 3]["steps"]]))
             replay(ctx, binary, tests, name, stats)
         beh, fans = vflib.sim_behaviours(jobs["sim"].result().emit_path, with_fans=True)
-        keep = [t for i, t in enumerate(fans) if (i * 2654435761 + ctx.seed) % (8 if quick else 2) == 0]
+        keep = [t for i, t in enumerate(fans) if (i * 2654435761 + ctx.seed) % (16 if quick else 2) == 0]
         for t in beh + keep:
             per_action[t["steps"][-1]["a"][0]] += 1
             ctx.nontrivial.add(vflib.digest([s["a"] for s in t["steps"]]))
